@@ -47,9 +47,17 @@ def run_impl(ctx, binary, ops):
     return [norm(x) for x in ctx.go_run(binary, TEST, ops)]
 
 
+_driver_path = {}
+
+
 def run_model(ctx, ops):
-    m = ctx.lean_run(ops, exe=DRIVER)
-    return None if m is None else [norm(x) for x in m]
+    # build the driver once per check run; later calls (shrinking) run the binary directly
+    if DRIVER not in _driver_path:
+        _driver_path[DRIVER] = ctx.lean_driver_build(DRIVER)
+    path = _driver_path[DRIVER]
+    if path is None:
+        return None
+    return [norm(x) for x in ctx.run_lines([path], ops)]
 
 
 def run_ref(ops):
@@ -85,7 +93,7 @@ def first_diff(xs, ys):
     return None
 
 
-def shrink_scenario(lines, fails, budget=120):
+def shrink_scenario(lines, fails, budget=70):
     """ddmin over the op lines after the reset line; `fails(lines) -> bool`."""
     head, body = lines[0], lines[1:]
     count = [0]
@@ -108,11 +116,14 @@ def sig(kind, op, a, b):
     return {"kind": kind, "op": op.split()[0], "field": diff_field(a, b)}
 
 
-def compare_all(ctx, binary, ops, what, nontrivial, extra_oracle=None, driver_name="Drivers/C20.lean (Model/MapHub.lean)"):
+def compare_all(ctx, binary, ops, what, nontrivial, extra_oracle=None, driver_name="Drivers/C20.lean (Model/MapHub.lean)",
+                ref_proj=None):
     """Run ops three ways, record coverage, report deviations.
     what: text used in violation messages; nontrivial(lines, impl_lines) -> bool;
     extra_oracle(lines, impl_lines) -> None | (message, signature dict): a statement-level predicate evaluated on
-    the implementation's output alone.  Returns (nprop, ncorr, model_ok)."""
+    the implementation's output alone; ref_proj(line) -> line: projection applied to implementation and reference lines
+    before they are compared (fields the property statement does not speak about).  Returns (nprop, ncorr, model_ok)."""
+    proj = ref_proj or (lambda x: x)
     impl = run_impl(ctx, binary, ops)
     model = run_model(ctx, ops)
     ref = run_ref(ops)
@@ -137,22 +148,22 @@ def compare_all(ctx, binary, ops, what, nontrivial, extra_oracle=None, driver_na
         bad = None
         if extra_oracle is not None:
             bad = extra_oracle(lines, im)
-        i = first_diff(im, rf)
+        i = first_diff([proj(x) for x in im], [proj(x) for x in rf])
         if bad is not None or i is not None:
             nprop += 1
-            if nprop <= 2:
+            if nprop <= 1:
                 def fails(ls):
                     si = run_impl(ctx, binary, ls)
                     if extra_oracle is not None and extra_oracle(ls, si) is not None:
                         return True
-                    return first_diff(si, run_ref(ls)) is not None
+                    return first_diff([proj(x) for x in si], [proj(x) for x in run_ref(ls)]) is not None
                 small = shrink_scenario(lines, fails)
                 si, sr = run_impl(ctx, binary, small), run_ref(small)
                 eb = extra_oracle(small, si) if extra_oracle is not None else None
                 if eb is not None:
                     ctx.violation("property", eb[0], signature=eb[1], replay={"ops": small, "impl": si, "reference": sr})
                 else:
-                    j = first_diff(si, sr)
+                    j = first_diff([proj(x) for x in si], [proj(x) for x in sr])
                     if j is None:
                         j = 0
                     a = si[j] if j < len(si) else "<missing>"
@@ -165,7 +176,7 @@ def compare_all(ctx, binary, ops, what, nontrivial, extra_oracle=None, driver_na
             k = first_diff(im, mo)
             if k is not None:
                 ncorr += 1
-                if ncorr <= 2:
+                if ncorr <= 1 and nprop == 0:
                     def fails2(ls):
                         m2 = run_model(ctx, ls)
                         return m2 is not None and first_diff(run_impl(ctx, binary, ls), m2) is not None
